@@ -306,8 +306,13 @@ func (e *Engine) Solve(o *Oblig, opts SolveOpts, stats *SolveStats, prep *sync.M
 		}
 		hdr := fmt.Sprintf("; obligation %s\n; function %s\n; position %s\n; path %s\n", o.ID, o.Fn, o.Pos, o.Path)
 		var gv []*Term
-		if e.ModelTerms != nil && !o.Cover {
-			gv = e.ModelTerms(o)
+		if !o.Cover {
+			for _, it := range o.Inputs {
+				gv = append(gv, it.T)
+			}
+			for _, it := range o.Outputs {
+				gv = append(gv, it.T)
+			}
 		}
 		o.modelTerms = gv
 		script = e.C.EmitSMT(assumps, goal, hdr, true, gv)
